@@ -12,7 +12,6 @@ import (
 	"github.com/buildbarn/bb-storage/pkg/blobstore"
 	"github.com/buildbarn/bb-storage/pkg/blobstore/grpcservers"
 	"github.com/buildbarn/bb-storage/pkg/digest"
-	"google.golang.org/genproto/googleapis/bytestream"
 	"google.golang.org/grpc/codes"
 	"google.golang.org/grpc/status"
 	"pgregory.net/rapid"
@@ -21,7 +20,10 @@ import (
 	"verif/harness/vstats"
 )
 
-const f4Key = "zstd-write-first-offset-unchecked"
+const (
+	f4Key  = "zstd-write-first-offset-unchecked"
+	f11Key = "zstd-write-fault-masked-after-last-content-byte"
+)
 
 // verdicts of the reference model for one upload
 const (
@@ -370,7 +372,7 @@ var recWrite = vstats.New("TestC14Write")
 
 // runWrite feeds the upload to a fresh real ByteStream server over a
 // model back end and checks the outcome against the reference model.
-func runWrite(t *rapid.T, c *wcase, kf digest.KeyFormat, poolIdx int, vc *vstats.Case, f4known bool, rec *vstats.Recorder) {
+func runWrite(t *rapid.T, c *wcase, kf digest.KeyFormat, poolIdx int, vc *vstats.Case, f4known, f11known bool, rec *vstats.Recorder) {
 	mem := backends.NewMem("cas", kf)
 	mem.MaxSize = 1 << 20
 	// Unrelated objects that must stay untouched.
@@ -447,6 +449,17 @@ func runWrite(t *rapid.T, c *wcase, kf digest.KeyFormat, poolIdx int, vc *vstats
 				vc.Class("excluded_f4")
 				return
 			}
+			// Exactly the shape of finding F11: the bytes sent before the
+			// fault already contain the complete contents; the fault
+			// (wrong offset, missing finish_write, transport error) hits
+			// while the decoder is inside trailing material, where it
+			// reports io.ErrUnexpectedEOF, which casValidatingReader takes
+			// for the end of the stream.
+			if c.zc && f11known && contentCompleteInPrefix(c) {
+				rec.Excluded(f11Key)
+				vc.Class("excluded_f11")
+				return
+			}
 			t.Fatalf("upload that must fail (%s) was stored and acknowledged (committed_size=%d): %s",
 				reason, stream.responses[0].CommittedSize, c)
 		}
@@ -461,9 +474,6 @@ func runWrite(t *rapid.T, c *wcase, kf digest.KeyFormat, poolIdx int, vc *vstats
 		}
 		vc.Class("rejected")
 		vc.Class("rejected_code_" + codeOf(err))
-		if codeOf(err) == "nonstatus" {
-			dbg("NONSTATUS %v reason=%s case=%s", err, reason, c)
-		}
 	default:
 		vc.Class("weak")
 		if err == nil {
@@ -479,6 +489,10 @@ func TestC14Write(t *testing.T) {
 	f4known := vstats.KnownListed("C14", f4Key)
 	if f4known {
 		probeF4(t)
+	}
+	f11known := vstats.KnownListed("C14", f11Key)
+	if f11known {
+		probeF11()
 	}
 	rapid.Check(t, func(t *rapid.T) {
 		vc := recWrite.Begin()
@@ -517,9 +531,43 @@ func TestC14Write(t *testing.T) {
 			vc.Class("mut_" + strings.SplitN(m, ":", 2)[0])
 		}
 		vc.Sample(func() string { return c.String() })
-		runWrite(t, c, kf, poolIdx, vc, f4known, recWrite)
+		runWrite(t, c, kf, poolIdx, vc, f4known, f11known, recWrite)
 		vc.End()
 	})
+}
+
+// contentCompleteInPrefix reports whether some prefix of the bytes of the
+// upload decodes to the digest's contents.
+func contentCompleteInPrefix(c *wcase) bool {
+	var all []byte
+	for _, m := range c.msgs {
+		all = append(all, m.data...)
+	}
+	for p := 0; p <= len(all); p++ {
+		if dec, err := zDecode(all[:p]); err == nil && bytes.Equal(dec, c.want) {
+			return true
+		}
+	}
+	return false
+}
+
+// probeF11 is the dedicated probe for the listed finding: a complete
+// frame followed by a skippable frame whose last byte arrives with a
+// wrong write_offset.
+func probeF11() {
+	x := append(zEncodeStream(0, nil, 1), 0x50, 0x2a, 0x4d, 0x18, 1, 0, 0, 0, 0xaa)
+	d := mkDigest("", fnSHA256, nil)
+	mem := backends.NewMem("cas", digest.KeyWithoutInstance)
+	srv := grpcservers.NewByteStreamServer(mem, 1<<16, pools()[0])
+	stream := &fakeWriteStream{ctx: context.Background(), end: io.EOF, msgs: []wmsg{
+		{name: writeName("", fixedUUID, true, fnSHA256, d.GetHashString(), "0"), off: 0, data: x[:len(x)-1]},
+		{off: int64(len(x)), data: x[len(x)-1:], finish: true},
+	}}
+	if err := srv.Write(stream); err == nil && mem.Has(d) {
+		what := fmt.Sprintf("compressed upload whose second message has write_offset=%d instead of %d (inside a trailing skippable frame) stored and acknowledged", len(x), len(x)-1)
+		recWrite.KnownFinding(f11Key, what)
+		fmt.Printf("KNOWN-FINDING: property=C14 key=%s %s\n", f11Key, what)
+	}
 }
 
 // probeF4 is the dedicated probe for the listed finding: a compressed
@@ -541,4 +589,3 @@ func probeF4(t *testing.T) {
 	}
 }
 
-var _ = bytestream.WriteRequest{}
